@@ -1,4 +1,5 @@
 import GeomV.C11.Wire
+import GeomV.C11.Heap
 /-!
 Driver for C11.  `geomv_c11 judge` reads one history per line together with what the real
 implementation did after every operation (whole-tree dump through the `verif` hook, Size, Depth,
@@ -103,6 +104,14 @@ def judgeHist (h : Hist) (steps : List Tok) : String := Id.run do
   -- families whose class says "specOnly" (non-dyadic coordinates: the heuristics' float arithmetic is
   -- inexact, the tree may differ from the exact model by tie-breaking) are judged by the Spec only
   let specOnly := (h.cls.splitOn "specOnly").length > 1
+  -- the pointer-level model (Heap.lean: arena of nodes with STORED parent fields) runs next to the functional model
+  -- on every history of at most 400 operations with coordinates below 2^70 (cost): same faults, its erasure = the functional tree, same Delete result,
+  -- Size, Depth, and the hook's parent audit evaluated on the arena
+  let smallCoords := h.pool.all fun o => [o.box.minX, o.box.minY, o.box.maxX, o.box.maxY].all fun c =>
+    decide (c.num.natAbs < 2^70) && decide (c.den < 2^70)
+  let useHeap := !specOnly && h.ops.length ≤ 400 && smallCoords
+  let hfuel := 80
+  let mut heap : Heap.HTree ObjRec := Heap.newTree h.minC h.maxC
   for (name, op) in h.ops do
     i := i + 1
     let at_ := s!"step={i}/{m}-op={name}"
@@ -114,6 +123,10 @@ def judgeHist (h : Hist) (steps : List Tok) : String := Id.run do
         match model.step goHeur op with
         | .error f => firstDiff := some s!"{at_}-model-faults-{faultStr f}-impl-does-not"
         | .ok (t', _) => model := t'
+        if useHeap && firstDiff.isNone then
+          match heap.step goHeur hfuel op with
+          | .error _ => firstDiff := some s!"{at_}-pointer-level-model-faults"
+          | .ok (h', _) => heap := h'
       prev := none
       prevDump := ""
       continue
@@ -133,7 +146,18 @@ def judgeHist (h : Hist) (steps : List Tok) : String := Id.run do
           | .error f => firstDiff := some s!"{at_}-model-faults-{faultStr f}-impl-does-not"
           | .ok (t', dr) =>
             model := t'
-            if !r.parentOK then firstDiff := some s!"{at_}-parent-link-inconsistent(model-assumption)"
+            if useHeap then
+              match heap.step goHeur hfuel op with
+              | .error _ => firstDiff := some s!"{at_}-pointer-level-model-faults-functional-model-does-not"
+              | .ok (h', hdr) =>
+                heap := h'
+                if (Heap.erase h'.mem hfuel h'.root).map nodeStr != some (nodeStr t'.root) || hdr != dr
+                    || h'.size != t'.size || h'.height != t'.height then
+                  firstDiff := some s!"{at_}-pointer-level-model-differs-from-functional-model"
+                else if !Heap.audit h'.mem hfuel none h'.root then
+                  firstDiff := some s!"{at_}-pointer-level-model-parent-link-audit-fails"
+            if firstDiff.isSome then pure ()
+            else if !r.parentOK then firstDiff := some s!"{at_}-parent-link-inconsistent(model-assumption)"
             else if dump != nodeStr t'.root then firstDiff := some s!"{at_}-tree-differs-from-model:impl={dump}-model={nodeStr t'.root}"
             else if r.size != t'.size || r.depth != t'.height then firstDiff := some s!"{at_}-size/depth-differ-from-model"
             else if r.delres != dr then firstDiff := some s!"{at_}-delete-result-differs-from-model"
